@@ -540,6 +540,11 @@ def _special_cases():
         out.append({"kind": "special", "what": "qcow2-invalid-bitmap", "bitmap": bm})
     for depth in (1, 3, 40):
         out.append({"kind": "special", "what": "vmdk-parent-chain-cycle", "depth": depth})
+    for depth in (1, 2, 3):
+        for both in (False, True):
+            out.append({"kind": "special", "what": "vhdx-parent-chain-cycle", "depth": depth, "both_paths": both})
+    for fmt in ("vdi", "vhd", "vhdx", "hds1", "hds2", "vmdk"):
+        out.append({"kind": "special", "what": "huge-unit-small-read", "fmt": fmt})
     for tgt in ("pax-header", "first-header", "own-header"):
         for typ in ("x", "X", "g+x", "g+X"):
             out.append({"kind": "special", "what": "vmtar-pax-size-then-visor-offset-backwards", "target": tgt, "typ": typ})
@@ -1009,4 +1014,55 @@ def _run_special(case, ctx):
                                                      cid=f"{k + 1:08x}", parent_cid=f"{(k + 1) % depth + 1:08x}",
                                                      parent_hint=f"l{(k + 1) % depth}.vmdk").encode()
         return _execute(ctx, case, None, files, subject, drv, {}, sum(len(v) for v in files.values()))
+    if what == "vhdx-parent-chain-cycle":
+        # a -> b -> ... -> a, every image names its parent by a relative path and (both_paths) also by an absolute path
+        # that exists: the walk must end (in an error) after a number of opens linear in the chain, whatever is tried first
+        from mc.builders import vhdx as BX
+
+        depth, both = case["depth"], case["both_paths"]
+
+        def drv(_):
+            from dissect.hypervisor.disk.vhdx import VHDX
+
+            with scratch_dir() as d:
+                for k in range(depth):
+                    nxt = f"l{(k + 1) % depth}.vhdx"
+                    loc = [("relative_path", ".\\" + nxt), ("parent_linkage", "{x}")]
+                    if both:
+                        loc.append(("absolute_win32_path", (d.lstrip("/") + "/" + nxt).replace("/", "\\")))
+                    BX.build([0, DATA], [None, 0], layer=k + 1, parent=loc).write_to(os.path.join(d, f"l{k}.vhdx"))
+                v = VHDX(Path(d) / "l0.vhdx")
+                return _drive_stream(v, v.read_sectors)
+
+        return _execute(ctx, case, None, None, subject, drv, {}, depth * (8 << 20))
+    if what == "huge-unit-small-read":
+        # the allocation unit is 128 MiB, the disk 1 GiB, nothing is allocated: the file is a few KiB and the reads are a few
+        # KiB, so the cost may not follow the unit size the header declares
+        from mc.builders import hdd as BH
+        from mc.builders import vdi as BV
+        from mc.builders import vhd as BVHD
+        from mc.builders import vhdx as BX
+
+        fmt = case["fmt"]
+        U = 128 << 20
+        n = 8
+
+        def compact(img, tail=0):
+            # the builders leave one unit of slack behind the metadata; cut it off (nothing is allocated), keeping a footer
+            sp = img.sparse(log=False)
+            end = max(off + ln for off, kind, pl, ln in img.ext if kind == 0 and off + ln <= img.size - tail)
+            return sp.peek_at(0, end) + (sp.peek_at(img.size - tail, tail) if tail else b"")
+
+        if fmt == "vdi":
+            raw, drv = BV.build([HOLE] * n, [None] * n, U, tail_slack=False).tobytes(), drv_vdi
+        elif fmt == "vhd":
+            raw, drv = compact(BVHD.build_dynamic([HOLE] * n, [None] * n, U // 512), 512), drv_vhd
+        elif fmt in ("hds1", "hds2"):
+            raw, drv = BH.build_hds([HOLE] * n, [None] * n, U // 512, int(fmt[3]), tail_slack=False).tobytes(), drv_hds
+        elif fmt == "vmdk":
+            raw, drv = compact(BM.build_hosted([HOLE] * n, [None] * n, U // 512, 512, data_base=64)), drv_vmdk
+        else:
+            raw, drv = compact(BX.build([0] * n, [None] * n, block_size=U)), drv_vhdx
+        assert len(raw) < (8 << 20), len(raw)
+        return _execute(ctx, case, None, raw, subject, drv, {}, len(raw))
     raise ValueError(what)
